@@ -20,7 +20,7 @@ open RsslVerif.Lemmas.MacroApi RsslVerif.Lemmas.SpecInert RsslVerif.Lemmas.Macro
 `Token::is_whitespace` and `compile()` the model was written against. -/
 theorem source_shape :
     definingDirectives = ["define", "undef"] ∧ defineRetainsThenPushes = true ∧ undefRetains = true ∧
-    argsShareDisabled = true ∧ initialDefinesPlainPush = true ∧
+    argsShareDisabled = true ∧ initialDefinesUseDefinePath = true ∧
     pragmas = ["once", "warning"] ∧
     whitespaceTokens = ["Endline", "PhysicalEndline", "Whitespace", "Comment"] ∧
     (∀ t, (compileDefines t).map (·.1) = ["__HLSL_VERSION", "RSSL_TARGET_HLSL", "RSSL_TARGET_MSL"]) ∧
@@ -227,7 +227,7 @@ example : ∃ out, substitute [⟨.arg 0, true⟩, ⟨.punct "+", true⟩, ⟨.a
 /-! ## Scope of definitions -/
 
 /-- **define_undef_scoping.** Starting from a macro list with pairwise distinct names (in particular the empty
-one, or API-level defines with distinct names), any sequence of `#define` / `#undef` directives keeps the names
+one; `macro_names_always_distinct` shows every list reached in a run is such), any sequence of `#define` / `#undef` directives keeps the names
 pairwise distinct -- the list never holds two entries of one name -- the `assert_eq!` in the `undef` arm never fails,
 and, starting from the empty list, looking a name up gives the latest `#define` of that name that is not followed by
 an `#undef` of it. -/
@@ -252,60 +252,56 @@ example :
     applyEvents [] evs = [a2] ∧ lookup evs "A" = some a2 ∧ lookup evs "B" = none := by
   decide
 
-/-- The full statement "the macro list never holds two entries of one name" is **false** for the pinned code when the
-API-level define list repeats a name: both entries are kept, and `#undef` of that name then trips the assertion
-(replayed on the real code: corpus/C12.txt). -/
-theorem api_duplicates_break_scoping :
-    let ms := [("A", [Tok.int "1"]), ("A", [Tok.int "2"])].map apiMacro
-    ¬ (names ms).Nodup ∧
-    doUndef ms [⟨.ws, true⟩, ⟨.id "A", true⟩] =
-      .error (.panic "preprocess/src/preprocess.rs: assertion `left == right` failed") := by
-  refine ⟨by decide, rfl⟩
-
 /-! ## API-level defines -/
 
-/-- **api_defines_equal_file_defines** (partial). For API-level defines with pairwise distinct names whose values
-have no leading/trailing blank and no `##`, the macro list the code builds from the API list and the macro list it
-builds from the lines `#define NAME value` placed before the first line are the same up to the location bit of the
-body tokens -- and everything after that point is a function of the macro list.
-*Missing for the full statement:* the lemma that the location bit influences nothing but the `unlex` panic
-(`paste_unlocated_panics`), i.e. that a run on the API-built list either hits that panic or equals the run on the
-`#define`-built list; it is covered by the correspondence run only (every generated program is run with its leading
-definitions placed in the file, in the API list, and split).  The hypotheses cannot be dropped: see
-`api_defines_differ_from_file_defines`. -/
-theorem api_defines_equal_file_defines_partial (defs : List (String × List Tok))
-    (hnames : (defs.map (·.1)).Nodup) (hvalues : ∀ d ∈ defs, ValueOk d.2) :
-    ∃ ms, defineAll [] defs = .ok ms ∧ ms.map eraseLoc = (defs.map apiMacro).map eraseLoc := by
-  refine ⟨defs.map fileMacro, ?_, ?_⟩
-  · have := defineAll_spec [] defs hvalues (by simpa [names] using hnames)
-    simpa using this
-  · simp only [List.map_map]
-    apply List.map_congr_left
-    intro d _
-    exact (eraseLoc_api d).symm
+/-- **api_defines_equal_file_defines.** Defines passed through the API behave exactly like `#define` lines placed
+before the first line of the entry file: processing the entry file after installing the API list gives the same
+result -- same output tokens, same macro list, same once-set, or the same error (e.g. `InvalidDefine` for a name that
+is not an identifier) -- as processing the file with the lines `#define name value` put in front of it.
+Any API list (repeated names, values with `##`, blanks, empty values, names that are not single identifiers).
+"Modulo locations": since the 9f7cdb8 fix the tokens of an API define carry a real location (the file `<define>`), so the
+only location fact the model tracks -- has one / has none -- is the same on both sides; the locations themselves
+differ (that is C14's subject).
+Notes. (1) A name such as `F(x)` is lexed and parsed like the text after `#define`, so it defines a *function-like*
+macro, as `-DF(x)=..` does for a C compiler.  (2) `lines ≠ []`: for an empty entry file the lexer's end-of-file line
+end is emitted on the left side only -- a white-space token, invisible after `prepare_tokens`.  (3) The lines are put
+in front of this processing of the entry file; a nested `#include` of the entry file itself sees the file as the
+handler delivers it, on both sides. -/
+theorem api_defines_equal_file_defines (inc : String → State → Except Err State) (entry : String)
+    (api : List ApiDefine) (lines : List Line) (hne : lines ≠ []) :
+    runInitial inc entry api lines =
+      runFile inc entry { macros := [], out := [], once := [] } (api.map defineLineOf ++ lines) := by
+  have hne' : api.map defineLineOf ++ lines ≠ [] := by
+    intro h; exact hne (List.append_eq_nil_iff.mp h).2
+  unfold runInitial runFile
+  rw [fileStart_of_ne_nil hne', foldLines_defines]
+  cases initialMacros [] api with
+  | error e => rfl
+  | ok ms => simp only [fileStart_of_ne_nil hne]
 
-/-- non-vacuity: `-D A=P -D B=(1 + 2)` -/
-example : ∃ ms, defineAll [] [("A", [.id "P"]), ("B", [.lparen, .int "1", .ws, .punct "+", .ws, .int "2", .rparen])]
-    = .ok ms ∧ ms.map eraseLoc = ([("A", [Tok.id "P"]),
-      ("B", [.lparen, .int "1", .ws, .punct "+", .ws, .int "2", .rparen])].map apiMacro).map eraseLoc := by
-  apply api_defines_equal_file_defines_partial
-  · decide
-  · intro d hd
-    simp at hd
-    rcases hd with rfl | rfl <;> exact ⟨by decide, by decide⟩
+/-- examples of the fixed behaviour (these were defects of the tree before 9f7cdb8, see notes/C12.md):
+a name listed twice -- the later entry replaces the earlier one; `##` in a value is the paste operator;
+a name `F(X)` defines a function-like macro. -/
+example : initialMacros [] [⟨[.id "A"], [.int "1"]⟩, ⟨[.id "A"], [.int "2"]⟩] =
+    .ok [⟨"A", false, 0, [⟨.int "2", true⟩]⟩] := by rfl
+example : initialMacros [] [⟨[.id "A"], [.id "P", .ws, .hashhash, .ws, .id "Q"]⟩] =
+    .ok [⟨"A", false, 0, [⟨.id "P", true⟩, ⟨.ws, true⟩, ⟨.concat, true⟩, ⟨.ws, true⟩, ⟨.id "Q", true⟩]⟩] := by rfl
+example : initialMacros [] [⟨[.id "F", .lparen, .id "X", .rparen], [.id "X", .punct "+", .int "1"]⟩] =
+    .ok [⟨"F", true, 1, [⟨.arg 0, true⟩, ⟨.punct "+", true⟩, ⟨.int "1", true⟩]⟩] := by rfl
 
-/-- The full statement is **false** on the pinned code, in three ways (each replayed on the real code,
-corpus/C12.txt): (1) a value containing `##` stays three ordinary tokens on the API route and becomes the paste
-operator on the `#define` route; (2) a name listed twice keeps both entries on the API route (the first wins) while a
-second `#define` replaces the first; (3) any `##` whose operand is a token of an API-level define panics. -/
-theorem api_defines_differ_from_file_defines :
-    (∃ ms, defineAll [] [("A", [.id "P", .hashhash, .id "Q"])] = .ok ms ∧
-      ms.map eraseLoc ≠ ([("A", [Tok.id "P", .hashhash, .id "Q"])].map apiMacro).map eraseLoc) ∧
-    (∃ ms, defineAll [] [("A", [.int "1"]), ("A", [.int "2"])] = .ok ms ∧
-      ms.length = 1 ∧ ([("A", [Tok.int "1"]), ("A", [.int "2"])].map apiMacro).length = 2) ∧
-    (∀ l r : PTok, l.located = false ∨ r.located = false →
-      pasteTokens l r = .error (.panic "preprocess/src/unlexer.rs: unlex does not support unlocated tokens")) := by
-  refine ⟨⟨_, rfl, by decide⟩, ⟨_, rfl, by decide, by decide⟩, paste_unlocated_panics⟩
+/-- **macro_names_always_distinct.** Through a whole run of `preprocess` -- API defines, `#define`, `#undef`, nested
+includes to any depth -- the macro list never holds two entries of one name (so the `assert_eq!` of the `undef` arm
+cannot fail, by `define_undef_scoping`). -/
+theorem macro_names_always_distinct (h : Handler) (fuel : Nat) (entry : String) (api : List ApiDefine)
+    (lines : List Line) (st : State) (hrun : runInitial (includeFile h fuel) entry api lines = .ok st) :
+    (names st.macros).Nodup := by
+  unfold runInitial at hrun
+  cases hi : initialMacros [] api with
+  | error e => simp [hi] at hrun
+  | ok ms =>
+    simp only [hi] at hrun
+    exact runFile_nodup (includeFile_keepsNodup h fuel) entry _ st lines hrun
+      (initialMacros_nodup api (by simp [names]) hi)
 
 /-! ## Refinement of the reference -/
 
